@@ -219,10 +219,10 @@ pub open spec fn table_grew(c1: Map<u64, usize>, c2: Map<u64, usize>) -> bool {
     forall|k: u64| c1.contains_key(k) ==> c2.contains_key(k) && #[trigger] c2[k] == c1[k]
 }
 
-//@@LEMMA C15
 /// a value stays filed where it is whatever is added to the data table or to the intern table afterwards - with
 /// cache_add.same_constant_same_address this is "adding an equal constant again returns the same address", however many other
 /// constants were added in between
+//@@LEMMA C15
 pub proof fn lemma_filed_is_stable<T: SimpleDataType>(c1: Map<u64, usize>, cells1: Seq<SimpleData<T>>, c2: Map<u64, usize>, cells2: Seq<SimpleData<T>>, value: SimpleData<T>, n: nat, a: usize)
     requires filed_at(c1, cells1, value, n, a), table_grew(c1, c2), cells1.len() <= cells2.len(),
         forall|i: int| 0 <= i < cells1.len() ==> cells2[i] == cells1[i],
@@ -238,9 +238,9 @@ pub proof fn lemma_filed_is_stable<T: SimpleDataType>(c1: Map<u64, usize>, cells
     assert(c2[k] == c1[k]);
 }
 
-//@@LEMMA C15
 /// two different constants never share an address: whatever address a request is answered with holds a value equal to the
 /// requested one (cache_add.reads_back), so one address for two requests means both are equal to the value stored there
+//@@LEMMA C15
 pub proof fn lemma_filed_is_unique<T: SimpleDataType>(cache: Map<u64, usize>, cells: Seq<SimpleData<T>>, value: SimpleData<T>, n: nat, a: usize, m: nat, b: usize)
     requires filed_at(cache, cells, value, n, a), filed_at(cache, cells, value, m, b),
     ensures n == m && a == b
